@@ -9,7 +9,7 @@ COMMON_ASSUME = [
 PROPS = {
     "C17": {
         "stages": [{"bin": "err"}],
-        "rule": "decision table written from the statement: for every fallible public routine (7 single-input summary statistics + entropy on f64/f32/i32; min/max/argmin/argmax; 8 weighted routines; 10 deviation measures on f64 and i64; kl_divergence / cross_entropy; 5 quantile entry points on i32/N64/f64; pearson_correlation; cov; 5 strategies + GridBuilder) x first-input shapes {(4), (2,3), (3,1,2), (1), (0), (0,3), (3,0), (0,0), (2,0,3)} (+9 more in thorough) x second argument {same shape, same element count other shape, broadcast-compatible, one axis longer, different rank} in two layouts / per-axis weights of right and wrong length on every axis x q lists {valid, single, empty list, one < 0, one > 1, several invalid (first offending one carried), invalid on an empty axis, 1+2^-52, -0.0, +inf} x 3 layouts (8 thorough): expected cell in {Ok, EmptyInput, ShapeMismatch(first, second), InvalidQuantile(q)} or unconstrained (observed and counted, never judged: empty first input AND mismatching second argument for the sum-type routines; cov with zero observations and ddof >= 0; constant data for strategies; a zero-column matrix for GridBuilder). Second operands of another rank include shapes that are a prefix of / prefixed by the first shape (trailing unit axis appended, last axis dropped). Weight VALUES are varied too (all zero, +1/-1 with zero total, all one): a non-empty input never answers with an error. The table is enumerated completely; each cell is one distinct case (counted exactly); a panic in a constrained cell is a violation; weighted_sum / weighted_sum_axis of empty inputs must be zero.",
+        "rule": "decision table written from the statement: for every fallible public routine (7 single-input summary statistics + entropy on f64/f32/i32; min/max/argmin/argmax; 8 weighted routines; 10 deviation measures on f64 and i64; kl_divergence / cross_entropy; 5 quantile entry points on i32/N64/f64; pearson_correlation; cov; 5 strategies + GridBuilder) x first-input shapes {(4), (2,3), (3,1,2), (1), (0), (0,3), (3,0), (0,0), (2,0,3)} (+9 more in thorough) x second argument {same shape, same element count other shape, broadcast-compatible, one axis longer, different rank} in two layouts / per-axis weights of right and wrong length on every axis x q lists {valid, single, empty list, one < 0, one > 1, several invalid (first offending one carried), invalid on an empty axis, 1+2^-52, -0.0, +inf} x 3 layouts (8 thorough): expected cell in {Ok, EmptyInput, ShapeMismatch(first, second), InvalidQuantile(q)} or unconstrained (observed and counted, never judged: empty first input AND mismatching second argument for the sum-type routines; cov with zero observations and ddof >= 0; constant data for strategies; a zero-column matrix for GridBuilder). The rank-0 shape [] (one element) is one of the first shapes. Second operands of another rank include shapes that are a prefix of / prefixed by the first shape (trailing unit axis appended, last axis dropped). Weight VALUES are varied too (all zero, +1/-1 with zero total, all one): a non-empty input never answers with an error. The table is enumerated completely; each cell is one distinct case (counted exactly); a panic in a constrained cell is a violation; weighted_sum / weighted_sum_axis of empty inputs must be zero.",
         "exhaustive": True,
         "exhaustive_bound": {"quick": "the full table for 9 first-input shapes x 3 layouts", "thorough": "18 first-input shapes x 8 layouts"},
         "assumptions": COMMON_ASSUME + ["combinations the statement does not decide are reported as unconstrained, not judged"],
@@ -30,19 +30,19 @@ PROPS = {
     },
     "C06": {
         "stages": [{"kind": "oracle", "bin": "num"}],
-        "rule": "floats (f32, f64): every call of mean / weighted_sum / weighted_mean / weighted_sum_axis / weighted_mean_axis / harmonic_mean / geometric_mean is logged (operand and result bit patterns in logical order) and judged offline: the exact value is recomputed with fractions.Fraction (ln via 60-digit decimal) and |result - exact| <= 4 x the a-priori forward error bound of %s (gamma_k * sum|terms|); harmonic mean judged in the reciprocal domain, geometric mean in the log domain; per-axis results are judged lane by lane (lane extracted by the harness's own index arithmetic) together with the whole-array routine applied to an owned copy of that lane. Data and weights always have DIFFERENT zoo layouts (pairing by logical index). Integers (i32, i64, in-process): exact i128 reference, the type's truncating division, per-axis element == exact lane value == whole-array routine on the lane. Data classes: uniform, cancelling signs, common offset 1e0..1e12, mixed magnitudes 1e+-8, positive, small integers, constant, large mean, mean of order one with spread 2^-30..2^-45, positive data within one decade around 10^e (|e| <= 100); per-axis records also carry the whole-array routine applied to the lane VIEW as it lies in the array; weights: unit, random, 12 decades, with zeros. distinct = hash of (type, shape, axis, both layouts, data bits, weight bits); non-trivial = >= 2 elements." % "DESIGN.md section 4",
+        "rule": "floats (f32, f64): every call of mean / weighted_sum / weighted_mean / weighted_sum_axis / weighted_mean_axis / harmonic_mean / geometric_mean is logged (operand and result bit patterns in logical order) and judged offline: the exact value is recomputed with fractions.Fraction (ln via 60-digit decimal) and |result - exact| <= 4 x the a-priori forward error bound of %s (gamma_k * sum|terms|); harmonic mean judged in the reciprocal domain, geometric mean in the log domain; per-axis results are judged lane by lane (lane extracted by the harness's own index arithmetic) together with the whole-array routine applied to an owned copy of that lane. Data and weights always have DIFFERENT zoo layouts (pairing by logical index). Integers (i32, i64, in-process): exact i128 reference, the type's truncating division, per-axis element == exact lane value == whole-array routine on the lane. Data classes: uniform, cancelling signs, common offset 1e0..1e12, mixed magnitudes 1e+-8, positive, small integers, constant, large mean, mean of order one with spread 2^-30..2^-45, positive data within one decade around 10^e (|e| <= 100), positive data with independent magnitudes over 50 (f32) / 500 (f64) decades, data of order one with two tiny and two huge entries whose running product leaves the normal range and comes back (a harmonic mean of exactly zero is a violation unless the exact value or the sum of reciprocals leaves the exponent range); per-axis records also carry the whole-array routine applied to the lane VIEW as it lies in the array; weights: unit, random, 12 decades, with zeros. distinct = hash of (type, shape, axis, both layouts, data bits, weight bits); non-trivial = >= 2 elements." % "DESIGN.md section 4",
         "exhaustive": False,
         "assumptions": COMMON_ASSUME + ["a fault whose effect is below the stated tolerance is indistinguishable from roundoff and is not reported", "no intermediate underflow/overflow (generators keep magnitudes away from the exponent limits)"],
     },
     "C07": {
         "stages": [{"kind": "oracle", "bin": "num"}],
-        "rule": "every call of weighted_var / weighted_std / their per-axis forms / central_moment(p<=8) / central_moments / skewness / kurtosis on f32 and f64 data is logged and judged offline against the definition evaluated in exact rationals: variance within 4 x the first-order forward error bound of the documented West recurrence (obtained by replaying the recurrence in exact arithmetic), std via r^2, central moments within 4(n+4p+8)u(1/n)sum(|x-mean|+2delta)^p, orders 0 and 1 exactly 1 and 0, skewness/kurtosis with propagated bounds in 60-digit decimals (skipped when the second moment is within its own bound of zero); per-axis forms lane by lane plus the whole-array routine on the owned lane. ddof in {0, 1, 1/4, 1/2}; weights >= 0 with positive total incl. leading and interior zeros; data with mean/spread up to 1e12 (f64) / 1e3 (f32). distinct as for C06.",
+        "rule": "every call of weighted_var / weighted_std / their per-axis forms / central_moment(p<=8) / central_moments / skewness / kurtosis on f32 and f64 data is logged and judged offline against the definition evaluated in exact rationals: variance within 4 x the first-order forward error bound of the documented West recurrence (obtained by replaying the recurrence in exact arithmetic), std via r^2, central moments within 4(n+4p+8)u(1/n)sum(|x-mean|+2delta)^p, orders 0 and 1 exactly 1 and 0, skewness/kurtosis with propagated bounds in 60-digit decimals (skipped when the second moment is within its own bound of zero); per-axis forms lane by lane plus the whole-array routine on the owned lane. ddof in {0, 1, 1/4, 1/2}; weights >= 0 with positive total incl. leading and interior zeros; data with mean/spread up to 1e12 (f64) / 1e3 (f32); whole data sets rescaled by 10^+-3..8 (f32) / 10^+-20..70 (f64) (skewness / kurtosis skipped when the fourth moment leaves the exponent range either way); a late far observation carrying 0.3 u of the total weight. distinct as for C06.",
         "exhaustive": False,
         "assumptions": COMMON_ASSUME + ["a fault whose effect is below the stated tolerance is indistinguishable from roundoff and is not reported"],
     },
     "C08": {
         "stages": [{"kind": "oracle", "bin": "num"}],
-        "rule": "cov(ddof) and pearson_correlation on 1..8 variables x 2..65 observations (f32, f64; C / F / random zoo layouts; uniform, offset, mixed-magnitude, integer, large-mean and linearly dependent rows; a quarter of the matrices rescaled per variable by 10^s, |s| <= 120 (f32: 14); ddof in {0, 1, 1/2, o-3/4}) are logged and judged offline entry by entry against the exact rational definition with the bound 4[(o+6)u sum(|xi-mi|+di)(|xj-mj|+dj) + o di dj]/(o-ddof); symmetry within 2 tol; diagonal >= -tol; correlation against cov/(sigma_i sigma_j) in 60-digit decimals with the propagated bound, diagonal 1 and |rho| <= 1 up to that bound; invariance under an EXACT positive affine rescaling (dyadic factor, integer-grid data) and sign flip under exact negation of one variable. distinct = hash of (type, shape, layout, data bits).",
+        "rule": "cov(ddof) and pearson_correlation on 1..8 variables x 2..65 observations (f32, f64; C / F / random zoo layouts; uniform, offset, mixed-magnitude, integer, large-mean and linearly dependent rows; a quarter of the matrices rescaled per variable by 10^s, |s| <= 120 (f32: 14); ddof in {0, 1, 1/2, o-3/4}) are logged and judged offline entry by entry against the exact rational definition with the bound 4[(o+6)u sum(|xi-mi|+di)(|xj-mj|+dj) + o di dj]/(o-ddof); symmetry within 2 tol; diagonal >= -tol; correlation against cov/(sigma_i sigma_j) in 60-digit decimals with the propagated bound, diagonal 1 and |rho| <= 1 up to that bound; weakly correlated pairs constructed exactly (x, x^2 + 2^-e x: |rho| ~ 1e-9..1e-13, far above the roundoff of the definition); invariance under an EXACT positive affine rescaling (dyadic factor, integer-grid data) and sign flip under exact negation of one variable. distinct = hash of (type, shape, layout, data bits).",
         "exhaustive": False,
         "assumptions": COMMON_ASSUME + ["correlation entries are judged only for non-degenerate variables (variance > 4 x its own error bound)"],
     },
@@ -67,13 +67,13 @@ PROPS = {
     },
     "C12": {
         "stages": [{"bin": "hist"}],
-        "rule": "for each generated 1-D data set (i32, i64, u16, usize, N64; n in {0,1,2,3,5,10,31,100,333,1000,(10^4)}; classes: i*0.1, k/100, 1e6+k*0.01, 1+{0,1,2}eps, heavy ties/zero IQR, sign-crossing, magnitudes 1e+-6, i*0.001, mixed magnitudes; integer: small range, range 10n, wide, 7 levels, rounded normal) and each of the 5 strategies: empty => EmptyInput, constant => Strategy, other rejections must be Strategy and are not allowed when range/n_bins is a positive width (ints: range >= 2n; floats: any non-constant, except FreedmanDiaconis); accepted => first edge == min exactly, last edge > max, last - max <= width (+4ulp(M) floats), all bin widths == bin_width() (ints exactly, floats within 4ulp(M) when width >= 4ulp(M)), every observation has a bin, n_bins() == bins built, a histogram over the GridBuilder grid (1..3 columns, C/F/random layout) counts all n. TERMINATION is a logical-step bound: the strategy is instantiated with a counting element type and from_array / n_bins / build must finish within a budget of element operations derived from n and the expected bin count (a hang becomes a violation independent of machine load). Section fd_many_bins: a tight cluster plus two far outliers under FreedmanDiaconis / Auto (i32, i64, N64; 7*10^4 .. 1.8*10^5 bins). distinct = hash of (type, data bits); non-trivial = n >= 2. Data sets whose own parameters imply > 2*10^5 bins are counted as skipped.",
+        "rule": "for each generated 1-D data set (i32, i64, u16, usize, N64; n in {0,1,2,3,5,10,31,100,333,1000,(10^4)}; classes: i*0.1, k/100, 1e6+k*0.01, 1+{0,1,2}eps, heavy ties/zero IQR, sign-crossing, magnitudes 1e+-6, i*0.001, mixed magnitudes; integer: small range, range 10n, wide, 7 levels, rounded normal) and each of the 5 strategies: empty => EmptyInput, constant => Strategy, other rejections must be Strategy and are not allowed when range/n_bins is a positive width (ints: range >= 2n; floats: any non-constant, except FreedmanDiaconis); accepted => first edge == min exactly, last edge > max, last - max <= width (+4ulp(M) floats), all bin widths == bin_width() (ints exactly, floats within 4ulp(M) when width >= 4ulp(M)), every observation has a bin, n_bins() == bins built, a histogram over the GridBuilder grid (1..3 columns, C/F/random layout) counts all n. TERMINATION is a logical-step bound: the strategy is instantiated with a counting element type and from_array / n_bins / build must finish within a budget of element operations derived from n and the expected bin count (a hang becomes a violation independent of machine load). Integer classes include adjacent heavy levels (inter-quartile range 1 or 2 with n >= 27, where the integer Freedman-Diaconis width truncates to zero and the data must be rejected). Section fd_many_bins: a tight cluster plus two far outliers under FreedmanDiaconis / Auto (i32, i64, N64; 7*10^4 .. 1.8*10^5 bins). distinct = hash of (type, data bits); non-trivial = n >= 2. Data sets whose own parameters imply > 2*10^5 bins are counted as skipped.",
         "exhaustive": False,
         "assumptions": COMMON_ASSUME + ["integer data is kept far from the type's limits (stated in the property)", "float geometry is judged with tolerance 4 ulp at magnitude max(|min|, |last edge|)"],
     },
     "C13": {
         "stages": [{"bin": "hist"}],
-        "rule": "exhaustive: ALL sequences of length 0..5 (6 thorough) over {0..5} as edge collections (i32 with doubled values so half-way probes are integers, N64 genuinely, Tracked keys in thorough), built via From<Vec> and From<Array1>, x probes {-1, -1/2, 0, 1/2, ..., 6}: Edges::{len,is_empty,iter,index,as_array_view,indices_of}, Bins::{len,is_empty,index,index_of,range_of} against a BTreeSet / linear-scan model and against each other (range_of(v) == index(index_of(v))). Each edge sequence of length >= 2 is one distinct non-trivial case (counted exactly). Every probe list is asked ascending, descending and in two scrambled orders on the SAME object (a lookup must not depend on earlier lookups). Random part: grids of 1..3 axes: ndim/shape/projections, Grid::index for ALL index tuples, Grid::index_of for points inside every cell and random points, points handed over as owned, reversed and stepped views; edge collections of 5..200 edges with EVERY ordered pair of probes (below / on edges / strictly inside bins / above) on one object.",
+        "rule": "exhaustive: ALL sequences of length 0..5 (6 thorough) over {0..5} as edge collections (i32 with doubled values so half-way probes are integers, N64 genuinely, Tracked keys in thorough), built via From<Vec> and From<Array1>, x probes {-1, -1/2, 0, 1/2, ..., 6}: Edges::{len,is_empty,iter,index,as_array_view,indices_of}, Bins::{len,is_empty,index,index_of,range_of} against a BTreeSet / linear-scan model and against each other (range_of(v) == index(index_of(v))). Each edge sequence of length >= 2 is one distinct non-trivial case (counted exactly). Every probe list is asked ascending, descending and in two scrambled orders on the SAME object (a lookup must not depend on earlier lookups). Random part: grids of 1..3 axes: ndim/shape/projections, Grid::index for ALL index tuples, Grid::index_of for points inside every cell and random points, points handed over as owned, reversed and stepped views; edge collections of 5..200 edges with EVERY ordered pair of probes (below / on edges / strictly inside bins / above) on one object; grids whose number of cells does not fit a machine word (40..100 axes of 2..3 bins, 4 axes of 65 536 bins, 5..8 axes of 2^9..2^14 bins): shape, index and index_of per axis.",
         "exhaustive": True,
         "exhaustive_bound": {"quick": "all edge sequences of length <= 5 over 6 values x 15 probes", "thorough": "length <= 6"},
         "assumptions": COMMON_ASSUME + ["only comparisons are used by Edges/Bins (stated in the property), so a 6-value alphabet covers all order patterns up to the length bound"],
@@ -83,7 +83,7 @@ PROPS = {
                    {"kind": "sanitizer", "tool": "asan", "tiers": ["quick", "thorough"]},
                    {"kind": "sanitizer", "tool": "miri", "tiers": ["thorough"]},
                    {"kind": "sanitizer", "tool": "memcheck", "tiers": ["thorough"]}],
-        "rule": "shadow-buffer monitor: the array is a view (steps, reversed / permuted axes, offset) into a larger parent buffer whose other cells hold guard values; the parent is snapshotted bit for bit before the call and compared after: guard cells identical, every lane holds the same multiset of (unique) cell values, erroring calls change nothing, a second ArcArray handle is unchanged. Routines: partition_mut / get_from_sorted_mut / get_many_from_sorted_mut / quantile_mut / quantiles_mut on one lane of an n-D array (all other lanes must stay bit-identical), quantile_axis_mut / quantiles_axis_mut (valid and invalid q), quantile_axis_skipnan_mut, map_axis_skipnan_mut with a closure that rewrites its lane, remove_nan_mut over all masks up to length 8; element types Tracked (unique ids), f32, f64, Option<u8,i32,i64,N64>; 1..4 dims, every axis, 5 pivot policies. Dense request lists (nearly every rank of a long lane, scrambled, several lanes). Bulk requests are handed over as an owned array, a reversed view or a stepped view. Element lifecycle monitor (section owned_elems), with FAULT INJECTION - in a third of its cases the k-th comparison of the element type panics, the call is left by unwinding and the same monitors judge what it leaves behind: the same routines on an element type that owns a resource (Drop, not Copy), every value registered under a unique id in a table of live values: an element dropped twice, or cloned / compared after its drop, is a violation (element_lifecycle); key multisets per lane and guard cells as above. distinct = hash of (routine, shape, axis, layout, data); non-trivial = lane length >= 2.",
+        "rule": "shadow-buffer monitor: the array is a view (steps, reversed / permuted axes, offset) into a larger parent buffer whose other cells hold guard values; the parent is snapshotted bit for bit before the call and compared after: guard cells identical, every lane holds the same multiset of (unique) cell values, erroring calls change nothing, a second ArcArray handle is unchanged. Routines: partition_mut / get_from_sorted_mut / get_many_from_sorted_mut / quantile_mut / quantiles_mut on one lane of an n-D array (all other lanes must stay bit-identical), quantile_axis_mut / quantiles_axis_mut (valid and invalid q), quantile_axis_skipnan_mut, map_axis_skipnan_mut with a closure that rewrites its lane, remove_nan_mut over all masks up to length 8; element types Tracked (unique ids), f32, f64, Option<u8,i32,i64,N64>; 1..4 dims, every axis, 5 pivot policies. Section owned_arrays: quantile(s)_axis_mut on OWNED and SHARED arrays that are slices of a larger buffer, judged through the array the caller holds afterwards (shape, axis order, every lane; an erroring call - invalid q, empty axis - changes nothing). Dense request lists (nearly every rank of a long lane, scrambled, several lanes). Bulk requests are handed over as an owned array, a reversed view or a stepped view. Element lifecycle monitor (section owned_elems), with FAULT INJECTION - in a third of its cases the k-th comparison of the element type panics, the call is left by unwinding and the same monitors judge what it leaves behind: the same routines on an element type that owns a resource (Drop, not Copy), every value registered under a unique id in a table of live values: an element dropped twice, or cloned / compared after its drop, is a violation (element_lifecycle); key multisets per lane and guard cells as above. distinct = hash of (routine, shape, axis, layout, data); non-trivial = lane length >= 2.",
         "exhaustive": False,
         "assumptions": COMMON_ASSUME + ["writes outside the parent buffer are invisible to the shadow monitor; they are the business of the ASan / Miri / memcheck stages"],
     },
@@ -125,7 +125,7 @@ PROPS = {
     },
     "C02": {
         "stages": [{"bin": "sel"}],
-        "rule": "exhaustive part: every weak-order pattern of length 1..L (L=7 quick, 8 thorough; strided views and bulk form to smaller L) x every in-range index / every non-empty index subset in 3 presentations x EVERY pivot sequence (enumerated through the pivot hook by depth-first replay); each (pattern, request, pivot sequence) execution with n>=2 is one distinct non-trivial case (counted exactly). Random part: lengths up to 300, heavy ties, strides in {1,2,3,-1,-2,-3}, 6 pivot policies; distinct = hash of (keys, request, layout, pivot log). Empty requests on arrays of length 0..11. Every bulk request is handed over in one of three representations of the REQUEST array (owned contiguous, reversed view, every second cell of a larger buffer). Section owned_elems: the same entry points on an element type that owns a resource (Drop, not Copy) under the element lifecycle monitor (no element dropped twice, none cloned or compared after its drop). Oracle: std sort of the snapshot + post-condition + multiset-by-id + guard cells.",
+        "rule": "exhaustive part: every weak-order pattern of length 1..L (L=7 quick, 8 thorough; strided views and bulk form to smaller L) x every in-range index / every non-empty index subset in 3 presentations x EVERY pivot sequence (enumerated through the pivot hook by depth-first replay); each (pattern, request, pivot sequence) execution with n>=2 is one distinct non-trivial case (counted exactly). Random part: lengths up to 300, heavy ties, sorted / reversed / organ-pipe lanes and lanes sorted except for one element out of place or rotated, strides in {1,2,3,-1,-2,-3}, 6 pivot policies; distinct = hash of (keys, request, layout, pivot log). Empty requests on arrays of length 0..11. Every bulk request is handed over in one of three representations of the REQUEST array (owned contiguous, reversed view, every second cell of a larger buffer). Section owned_elems: the same entry points on an element type that owns a resource (Drop, not Copy) under the element lifecycle monitor (no element dropped twice, none cloned or compared after its drop). Oracle: std sort of the snapshot + post-condition + multiset-by-id + guard cells.",
         "exhaustive": True,
         "exhaustive_bound": {"quick": "patterns n<=7 single (n<=5 strided, n<=5 bulk), all pivot sequences", "thorough": "patterns n<=8 single (n<=6 strided, n<=6 bulk), all pivot sequences"},
         "assumptions": COMMON_ASSUME + ["behaviour of a comparison-only generic routine depends only on the weak-order pattern of the input (stated in the property)"],
@@ -139,7 +139,7 @@ PROPS = {
     },
     "C16": {
         "stages": [{"bin": "sel"}],
-        "rule": "out-of-range: every weak-order pattern of length 0..L (L=6 quick, 7 thorough) x positions {n, n+1, 2n+3, MAX/2+1, MAX-1, MAX} x EVERY pivot sequence for single selection; bulk requests with an out-of-range member alone / repeated / first / last / mixed, each handed over as an owned array, a reversed view and a stepped view of a larger buffer; partition on plain, stepped and reversed views; Edges/Bins/Grid with 0..6 edges per axis (1..3 axes), every single out-of-range coordinate (n, n+1, MAX-k for k <= 9, isize::MAX-1 .. isize::MAX+2, 2^63+n, 2^32, 2^32+1) and wrong arity. Call histories on one thread: a request (or index) accepted for a longer array must be rejected for a shorter one immediately afterwards, twice in a row; an empty request on an empty array must not panic. In-range: the C02/C15 exhaustive workloads replayed with only the unwind bit observed, plus every in-range Edges/Bins/Grid position. Both build profiles (release; checked = debug assertions + overflow checks). Each (input, position, pivot sequence) is a distinct case, counted exactly.",
+        "rule": "out-of-range: every weak-order pattern of length 0..L (L=6 quick, 7 thorough) x positions {n, n+1, 2n+3, MAX/2+1, MAX-1, MAX} x EVERY pivot sequence for single selection; bulk requests with an out-of-range member alone / repeated / first / last / mixed, each handed over as an owned array, a reversed view and a stepped view of a larger buffer; request lists of 64..160 entries on arrays of 0..13 elements with 1..all entries out of range (and their in-range twins); partition on plain, stepped and reversed views; Edges/Bins/Grid with 0..6 edges per axis (1..3 axes), every single out-of-range coordinate (n, n+1, MAX-k for k <= 9, isize::MAX-1 .. isize::MAX+2, 2^63+n, 2^32, 2^32+1) and wrong arity. Call histories on one thread: a request (or index) accepted for a longer array must be rejected for a shorter one immediately afterwards, twice in a row; an empty request on an empty array must not panic. In-range: the C02/C15 exhaustive workloads replayed with only the unwind bit observed, plus every in-range Edges/Bins/Grid position. Both build profiles (release; checked = debug assertions + overflow checks). Each (input, position, pivot sequence) is a distinct case, counted exactly.",
         "exhaustive": True,
         "exhaustive_bound": {"quick": "patterns n<=6", "thorough": "patterns n<=7"},
         "assumptions": COMMON_ASSUME + ["'panics' is observed as an unwind caught by catch_unwind (both profiles are built with panic=unwind)"],
